@@ -84,7 +84,7 @@ theorem cli_default_wiring :
     Gen.Waiter.poolConfigDiscardKey = "discard_overflow" ∧
     Gen.Waiter.cliPoolsGetKey = "pools" ∧ Gen.Waiter.cliPoolsSetKey = "pools" ∧
     Gen.Waiter.cliDecodesAfterDefault = true ∧
-    Gen.Waiter.instanceDiscardFrom = ["InstancePoolConfig.DiscardOverflow"] ∧
+    (Gen.Waiter.instanceDiscardFrom ≠ [] ∧ ∀ x ∈ Gen.Waiter.instanceDiscardFrom, x = "InstancePoolConfig.DiscardOverflow") ∧
     Gen.Waiter.discardFieldAssignments = 0 := by decide
 
 /-- docs/eng/best_practices/discard-overflow.md (regenerated `doc*` facts) promises what the source does: the only option it
@@ -112,6 +112,21 @@ theorem schedule_wiring :
 every pool section (no condition around the per-section lookup): not for some formats, sources or positions only -/
 theorem cli_default_unconditional :
     Gen.Waiter.cliDefaultGuard = "type-assertion-only" ∧ Gen.Waiter.cliDefaultInnerGuards = [] := by decide
+
+/-! ### round 4 -/
+
+/-- `readConfig` reads the config (file or standard input) BEFORE the default block looks at its pool sections; every read of
+`discardOverflow` in `(*instance).Run` resolves (go/types) to the field the wiring sets, `instanceSharedDeps.discardOverflow` — not to
+a field of the same name that shadows it -/
+theorem round4_wiring :
+    Gen.Waiter.cliReadsConfigBeforeDefault = true ∧
+    (Gen.Waiter.runReadsDiscardField ≠ [] ∧
+      ∀ x ∈ Gen.Waiter.runReadsDiscardField, x = "instanceSharedDeps.discardOverflow") := by decide
+
+/-- the only wrapper of the shared schedule, `coreutil.callbackOnFinishSchedule`, is transparent: `Next` and `Left` return what the
+wrapped schedule's `Next` / `Left` returned, everything else is the embedded schedule's -/
+theorem callback_schedule_transparent :
+    Gen.Waiter.cbNextTransparent = true ∧ Gen.Waiter.cbLeftTransparent = true ∧ Gen.Waiter.cbEmbedsSchedule = true := by decide
 
 /-! ### round 3 -/
 
